@@ -46,7 +46,8 @@ ASSUMPTIONS = [
 ]
 REQUIRED_MONITORS = ["conformance:layout", "conformance:ranges", "equivalence:state", "equivalence:photon-statistics",
                      "source-untouched", "recompile-same",
-                     "rejections", "tdm:conformance", "tdm:equivalence", "tdm1:conformance", "tdm1:unchanged"]
+                     "rejections", "tdm:conformance", "tdm:equivalence", "tdm1:conformance", "tdm1:unchanged",
+                     "limits:mode-count", "limits:measurement-count"]
 MAX_SKIP_FRACTION = 0.05
 
 TWO_PI = 2 * np.pi
@@ -870,7 +871,8 @@ def run_tdm_case(case, rep, env):
 def gen_tdm1_case(rng):
     tm = int(rng.integers(2, 9))
     cls = str(rng.choice(["exact", "exact", "exact", "literal-changed", "out-of-range", "wrong-gate", "wrong-modes", "too-many-bins",
-                          "phase-literal-changed", "extra-gate", "boundary-values", "single-value-range"]))
+                          "phase-literal-changed", "extra-gate", "boundary-values", "single-value-range", "wrong-concurrency",
+                          "wrong-spatial"]))
     return {"family": "tdm1", "tm": tm, "cls": cls, "compiler": str(rng.choice(["TDM", "TD2"])), "r_lit": float(np.round(rng.uniform(0.2, 0.9), 4)),
             "bs": rng.uniform(0, TWO_PI, tm).tolist(), "r": rng.uniform(0, np.pi, tm).tolist(), "m": rng.uniform(0, TWO_PI, tm).tolist(),
             "temporal_max": int(rng.integers(tm, tm + 4)), "pass_compiler": bool(rng.random() < 0.5)}
@@ -887,7 +889,8 @@ def run_tdm1_case(case, rep, env):
     gp = {"bs": [0, [0, TWO_PI]], "r": [0, [0, np.pi], np.pi], "m": [0, [0, TWO_PI]]}
     if cls == "single-value-range":
         gp["r"] = [0, np.pi / 2, np.pi]
-    spec = {"target": comp, "layout": layout, "modes": {"concurrent": 2, "spatial": 1, "temporal_max": case["temporal_max"]},
+    spec = {"target": comp, "layout": layout, "modes": {"concurrent": 3 if cls == "wrong-concurrency" else 2,
+                                                        "spatial": 2 if cls == "wrong-spatial" else 1, "temporal_max": case["temporal_max"]},
             "compiler": [comp], "gate_parameters": gp}
     reset_compilers(env)
     device = env["Device"](spec=spec)
@@ -933,6 +936,10 @@ def run_tdm1_case(case, rep, env):
         return
     rep.case(["tdm1", cls, tm, comp, rnd(bs, 4), rnd(r, 4)], True)
     rep.observe("tdm1-compiled:" + cls)
+    if cls in ("wrong-concurrency", "wrong-spatial"):
+        V("compile:" + comp, "limit-not-enforced:" + cls, "a program with 2 concurrent modes in 1 spatial mode was accepted for a device with %s" % (
+            {k: v for k, v in spec["modes"].items()}))
+        return
     rep.monitor("tdm1:conformance")
     exp = [("Sgate", (1,)), ("BSgate", (1, 0)), ("Rgate", (1,)), ("MeasureHomodyne", (0,))]
     got = [(type(c.op).__name__, tuple(x.ind for x in c.reg)) for c in compiled.circuit]
@@ -976,6 +983,117 @@ def parse_tdm_layout(text):
 
 # ---------------------------------------------------------------------------------------------------
 
+# ---------------------------------------------------------------------------------------------------------------------
+# mode / measurement count limits (Program.assert_modes, TDMProgram.assert_modes)
+# ---------------------------------------------------------------------------------------------------------------------
+
+def gen_limits_case(rng):
+    kind = str(rng.choice(["x-modes", "measurements"]))
+    if kind == "x-modes":
+        N = int(rng.integers(1, 4))
+        how = str(rng.choice(["exact", "larger-register", "new-and-del", "smaller-register"]))
+        return {"family": "limits", "kind": kind, "N": N, "how": how, "extra": int(rng.integers(1, 3))}
+    if kind == "measurements":
+        lim = {"pnr_max": int(rng.integers(0, 4)), "homodyne_max": int(rng.integers(0, 4)), "heterodyne_max": int(rng.integers(0, 3))}
+        n = int(rng.integers(2, 7))
+        meas = []
+        free = list(range(n))
+        rng.shuffle(free)
+        while free and rng.random() < 0.85:
+            t = str(rng.choice(["MeasureFock", "MeasureFock", "MeasureHomodyne", "MeasureX", "MeasureP", "MeasureHD", "MeasureHeterodyne",
+                                "MeasureThreshold"]))
+            k = int(rng.integers(1, min(3, len(free)) + 1)) if t in ("MeasureFock", "MeasureThreshold") else 1
+            meas.append({"op": t, "m": [int(free.pop()) for _ in range(k)]})
+        return {"family": "limits", "kind": kind, "limits": lim, "n": n, "meas": meas,
+                "missing_key": bool(rng.random() < 0.1)}
+
+
+def run_limits_case(case, rep, env):
+    sf, ops = env["sf"], env["ops"]
+    from strawberryfields.program_utils import CircuitError
+
+    kind = case["kind"]
+    rep.case(["limits", kind, {k: v for k, v in case.items() if k not in ("family", "kind")}], True)
+    V = lambda k, what: rep.violation("compile:limits:" + kind, k, what, case)
+
+    def outcome(f):
+        try:
+            return "accepted", f()
+        except CircuitError as e:
+            return "CircuitError", e
+        except Exception as e:  # anything else is not a documented way of refusing a program
+            return type(e).__name__, e
+
+    if kind == "x-modes":
+        N, how = case["N"], case["how"]
+        reset_compilers(env)
+        dev = sf.Device(make_spec(N, [0, [0, 1]]))
+        nreg = 2 * N + (case["extra"] if how == "larger-register" else (-1 if how == "smaller-register" and N > 1 else 0))
+        prog = sf.Program(nreg)
+        with prog.context as q:
+            if how == "new-and-del":
+                # a subsystem that is created and deleted again still counts (the register has held 2N + 1 subsystems)
+                (extra,) = ops.New(1)
+                ops.Del | extra
+            for i in range(N):
+                if i + N < nreg:
+                    ops.S2gate(0.5, 0.0) | (q[i], q[i + N])
+            ops.MeasureFock() | tuple(q[i] for i in range(min(nreg, 2 * N)))
+        res, val = outcome(lambda: prog.compile(device=dev, compiler="Xunitary"))
+        rep.monitor("limits:mode-count")
+        rep.observe("limits:x-modes:%s:%s" % (how, res))
+        over = how in ("larger-register", "new-and-del")
+        if over and res != "CircuitError":
+            V("mode-limit-not-enforced", "a program whose register has held %d subsystems was %s for a %d-mode device (CircuitError documented)" % (
+                len(prog.reg_refs), res, 2 * N))
+        if how == "exact" and res != "accepted":
+            V("rejected-at-the-limit", "a program with exactly %d modes was refused (%s: %s) by a %d-mode device" % (2 * N, res, str(val)[:100], 2 * N))
+        return
+
+    if kind == "measurements":
+        lim = dict(case["limits"])
+        if case["missing_key"]:
+            lim.pop("heterodyne_max")
+        dev = sf.Device({"target": "lim", "layout": None, "modes": lim, "compiler": ["gaussian"], "gate_parameters": None})
+        prog = sf.Program(case["n"])
+        with prog.context as q:
+            ops.Sgate(0.3) | q[0]
+            for mm in case["meas"]:
+                op = getattr(ops, mm["op"])
+                op = (op(0.3) if mm["op"] == "MeasureHomodyne" else op()) if isinstance(op, type) else op
+                regs = tuple(q[i] for i in mm["m"])
+                op | (regs if len(regs) > 1 else regs[0])
+        cnt = {"pnr": 0, "homodyne": 0, "heterodyne": 0}
+        for mm in case["meas"]:
+            if mm["op"] == "MeasureFock":
+                cnt["pnr"] += len(mm["m"])
+            elif mm["op"] in ("MeasureHomodyne", "MeasureX", "MeasureP"):
+                cnt["homodyne"] += 1
+            elif mm["op"] in ("MeasureHD", "MeasureHeterodyne"):
+                cnt["heterodyne"] += 1
+        res, val = outcome(lambda: prog.compile(device=dev, compiler="gaussian"))
+        rep.monitor("limits:measurement-count")
+        if case["missing_key"]:
+            rep.observe("limits:measurements:missing-key:%s" % res)
+            if res == "accepted":
+                V("incomplete-limits-accepted", "a device whose measurement limits lack 'heterodyne_max' was used without an error")
+            return
+        over = [k for k in cnt if cnt[k] > case["limits"][k + "_max"]]
+        rep.observe("limits:measurements:%s:%s" % ("over" if over else "within", res))
+        if over and res != "CircuitError":
+            V("measurement-limit-not-enforced", "program with %s measurements was %s for limits %s (exceeded: %s)" % (cnt, res, case["limits"], over))
+        if not over and res != "accepted":
+            V("rejected-within-limits", "program with %s measurements was refused (%s: %s) although the limits are %s" % (
+                cnt, res, str(val)[:100], case["limits"]))
+        if not over and res == "accepted":
+            got = [(type(c.op).__name__, [r.ind for r in c.reg]) for c in val.circuit if isinstance(c.op, ops.Measurement)]
+            want = [(type(getattr(ops, mm["op"])).__name__ if not isinstance(getattr(ops, mm["op"]), type) else mm["op"], mm["m"]) for mm in case["meas"]]
+            if sorted(map(str, got)) != sorted(map(str, want)):
+                V("measurements-changed", "measurements of the compiled program %s differ from the source's %s" % (got, want))
+        return
+
+
+
 def finalize(res, tier):
     """Every compiler must have accepted something, otherwise nothing was decided about what it returns."""
     out = []
@@ -993,6 +1111,8 @@ def run_case(case, rep, env):
         run_x_case(case, rep, env)
     elif case["family"] == "tdm1":
         run_tdm1_case(case, rep, env)
+    elif case["family"] == "limits":
+        run_limits_case(case, rep, env)
     else:
         run_tdm_case(case, rep, env)
 
@@ -1006,7 +1126,8 @@ def run_shard(shard, rep):
     env = load()
     rng = np.random.default_rng([shard["seed"], shard["id"], 12])
     for i in range(shard["n"]):
-        case = gen_tdm_case(rng) if (i % 10 == 3) else (gen_tdm1_case(rng) if i % 10 == 6 else gen_x_case(rng))
+        case = gen_tdm_case(rng) if (i % 10 == 3) else (gen_tdm1_case(rng) if i % 10 == 6 else (
+            gen_limits_case(rng) if i % 10 == 9 else gen_x_case(rng)))
         try:
             run_case(case, rep, env)
             if i % 41 == 7 and len(rep.samples) < 4:
